@@ -91,6 +91,11 @@ _RESERVED_WORDS = frozenset(
         "empty",
         "blank",
         "continue",
+        # Bare, these are loop arguments after an array literal in `for`/`tablerow`.
+        "limit",
+        "offset",
+        "reversed",
+        "cols",
     ]
 )
 
